@@ -189,6 +189,28 @@ CLAIMED["C18"] = dict(
     note=TRUST + "; the UKF update and measurement code feeding the innovations; the harness's likelihood recomputation and projection intervals; excluded: initialize(), the chi-square gate (environment input), exact threshold ties",
     engine="mmae")
 
+CLAIMED["C05"] = dict(
+    text=("TLC walks Calendar.tla, an explicit state machine of the proleptic Gregorian calendar (every day 1901-2099, second ticks "
+          "across minute / hour / noon / day / month / leap-day / year ends; MonthLengths, LeapRule, closed-form day number, RoundTrip, "
+          "Monotone) and Durations.tla, a state machine of Scenario.propagateTo (start second 0..59 x step 2..900 s x 1-3 requests; "
+          "StepsHonoured, EpochsAreStartPlusKDt; the as-coded second-truncation variant is refuted). Every spec instant (2.3M quick / "
+          "19M thorough) is replayed into the real Julian-date / calendar functions (JD to 1e-9 d, exact inverse, strict "
+          "monotonicity, offsets to 1e-4 s); traces of real timed runs (API and CLI-style targets, every start second, 1-3 calls, "
+          "clock, Julian date and epoch rows) are validated by TLC against TraceDurations.tla."),
+    ref="5 C05", technique="TLA+ specs Calendar.tla / Durations.tla + TLC; spec->impl replay of calendar instants, impl->spec trace validation of timed runs",
+    note=TRUST + "; Python datetime as the authoritative calendar for driving the implementation; leap seconds, sub-second instants and years outside 1901-2099 are out of scope",
+    engine="calendar")
+CLAIMED["C11"] = dict(
+    text=("GroundSite.tla states that a ground agent's Earth-fixed coordinates never change, its velocity is the Earth-rotation velocity "
+          "and its epoch is the clock (SiteEpochAgrees, StartInversionExact, SiteFixed, VelIsRotation; the as-coded start inversion is "
+          "refuted). Traces of real scenarios with LLA-configured ground sensors (every start second 0..59, midnight crossings, steps "
+          "2-900 s, runs up to a day, sites across latitudes and the 0 / 180 degree longitude seams) are projected to integer "
+          "millimetres against the authoritative start + k*step datetime and validated by TLC against TraceGroundSite.tla "
+          "(< 1 m, Earth-fixed velocity < 1e-6 km/s, agent epoch, ecef/lla fields and truth rows)."),
+    ref="5 C11", technique="TLA+ spec GroundSite.tla + TLC; impl->spec trace validation of real ground agents",
+    note=TRUST + "; the simulator's eci2ecef / lla2ecef as projection (themselves covered by C04); dates inside the 2014-2022 Earth-orientation table; poles excluded",
+    engine="calendar")
+
 NOT_APPLICABLE = {
     "C13": ("an explicit TLA+ specification cannot evaluate a degree-20 spherical-harmonic gradient or analytic ephemerides; "
             "the property IS equality with an independent numerical reference, which would be differential testing, a "
